@@ -276,7 +276,7 @@ def doc_mark(toks, cur, anchored, a, occ):
 
 class C29(Property):
     pid = 'C29'
-    level = 'partial'
+    level = 'proof'
     workers = 4
     required_theorems = [
         'C29_join_segs', 'C29_segs_join', 'C29_replace_var_spec', 'C29_replace_array_spec',
